@@ -65,7 +65,9 @@ func c19ScenarioF(v6second bool, seq []int, failAt int) *concScenario {
 		body: func(x *concExec) {
 			concReset()
 			s, conn := concSession()
-			conn.FailAt = failAt
+			if failAt < 10 {
+				conn.FailAt = failAt
+			}
 			x.data["session"] = s
 			log := &pingLog{}
 			x.data["log"] = log
@@ -178,7 +180,12 @@ func c19ScenarioF(v6second bool, seq []int, failAt int) *concScenario {
 					log.add(pingEvent{kind: "delivered", who: sym, id: id, t: vsched.NowNanos()})
 				}
 			}
-			threads(ping(0, false), ping(1, v6second), loop)
+			if failAt >= 10 { // four concurrent IPv4 pings, the (failAt-10)th transmission fails
+				conn.FailAt = failAt - 10
+				threads(ping(0, false), ping(1, false), ping(2, false), ping(3, false))
+			} else {
+				threads(ping(0, false), ping(1, v6second), loop)
+			}
 			vsched.WaitIdle()
 			log.add(pingEvent{kind: "end", who: packet.VerifICMPWaiters()})
 			s.Close()
@@ -205,8 +212,12 @@ func c19ScenarioF(v6second bool, seq []int, failAt int) *concScenario {
 					}
 				}
 			}
-			if len(sents) == 2 && sents[0].id == sents[1].id {
-				x.fail("ids", fmt.Sprintf("two concurrent pings used the same identifier %d", sents[0].id))
+			for i := range sents {
+				for j := i + 1; j < len(sents); j++ {
+					if sents[i].id == sents[j].id && sents[i].six == sents[j].six {
+						x.fail("ids", fmt.Sprintf("two concurrent pings used the same identifier %d", sents[i].id))
+					}
+				}
 			}
 			var obs []string
 			returned := 0
@@ -225,6 +236,10 @@ func c19ScenarioF(v6second bool, seq []int, failAt int) *concScenario {
 						x.fail("waiters", fmt.Sprintf("%d waiter entries left behind", e.who))
 					}
 				}
+			}
+			if failAt >= 10 {
+				x.obs = append(x.obs, strings.Join(obs, " "))
+				return // four pings, one failed transmission: identifiers and waiters were checked above
 			}
 			if returned != 2 {
 				return // deadlock/horizon is reported by the explorer
@@ -339,6 +354,9 @@ func c19Scenarios(maxLen int) []*concScenario {
 		for _, seq := range c19Sequences(maxLen) {
 			l = append(l, c19Scenario(six, seq))
 		}
+		if !six {
+			l = append(l, c19ScenarioF(false, nil, 11), c19ScenarioF(false, nil, 12)) // four pings, the first / second transmission fails
+		}
 		// environment deviation: the first or the second transmission fails
 		for _, failAt := range []int{1, 2} {
 			for _, seq := range [][]int{{}, {symR1}, {symR2}} {
@@ -351,7 +369,7 @@ func c19Scenarios(maxLen int) []*concScenario {
 
 func c19Run(c *core.Ctx, args []string) {
 	c.Res.Level = "model_checking"
-	c.Res.Rule = "for two concurrent pings (IPv4+IPv4 and IPv4+IPv6, timeout 2s) and every sequence of <=2 (thorough <=3) frames from {reply(id1), reply(id2), reply(foreign id), request(id1), 7-byte reply(id1), id1 in a message typed with the other family's echo-reply number, reply(id1) from another source address} delivered by one packet-loop thread (ids are read from the captured requests; WriteTo and the timer firing are scheduling points): stateless DFS over all schedules up to the deviation bound. Oracle per execution: a request whose matching reply was parsed before its timer fired must complete with nil, a request that never had a matching reply must return ErrTimeout, identifiers distinct, no panic, no waiter left; plus 12 scenarios in which the first or second transmission fails (the send-error path must not leave a waiter behind). distinct = distinct observation vectors"
+	c.Res.Rule = "for two concurrent pings (IPv4+IPv4 and IPv4+IPv6, timeout 2s) and every sequence of <=2 (thorough <=3) frames from {reply(id1), reply(id2), reply(foreign id), request(id1), 7-byte reply(id1), id1 in a message typed with the other family's echo-reply number, reply(id1) from another source address} delivered by one packet-loop thread (ids are read from the captured requests; WriteTo and the timer firing are scheduling points): stateless DFS over all schedules up to the deviation bound. Oracle per execution: a request whose matching reply was parsed before its timer fired must complete with nil, a request that never had a matching reply must return ErrTimeout, identifiers distinct, no panic, no waiter left; plus 12 scenarios in which the first or second transmission fails and 2 scenarios with four concurrent pings one of whose transmissions fails (the send-error path must not leave a waiter behind). distinct = distinct observation vectors"
 	c.Res.Assumptions = []string{"a reply delivered after the timer fired but before the pinging goroutine ran may legitimately complete the ping or not (both accepted)", "send errors: only 'the first/second transmission fails' is injected, as a one-step environment deviation", "a reply of the other address family carrying the right identifier is not in the alphabet (the statement does not decide it)"}
 	maxLen, bound := 2, 1
 	if c.Thorough() {
